@@ -187,8 +187,11 @@ class C12:
                       "inside the root that the application declines lose their counterpart" % (g0, g1, g2))
         ign = [n for n in g.nodes if node_has_call(n, "%s.ignore(IgnoreReason.IRRELEVANT)" % sync)]
         disc = [n for n in g.nodes if n.kind == "test" and pat.match("%s.is_discarded" % sync, n.ast) is not None]
-        if not ign or not disc:
-            raise AnalysisError("embrace_change: ignore(IRRELEVANT) / is_discarded test not found")
+        if not disc:
+            raise AnalysisError("embrace_change: is_discarded test not found")
+        if not ign:
+            rep.violation("C12.Y4", "embrace_change|ignored", ctx.line(f, t.ast), "a path that does not translate is no longer ignored as IRRELEVANT: it is embraced (created / uploaded / renamed) on the other side")
+            return
         did = {n.id for n in disc}
         # every path of the not-translated arm either returns or passes ignore(IRRELEVANT) before the is_discarded test
         p1 = g.reach(starts, lambda n: n in disc, avoid=lambda n: n in ign, follow=NORMAL, include_src=True)
